@@ -109,7 +109,7 @@ JANET_DEFS = [
     "drop-until-slice", "drop-until", "drop-while", "do-extreme", "extreme", "max", "min", "max-of", "min-of",
     "sum", "product", "reverse", "reverse!", "zipcoll", "distinct", "frequencies", "merge", "merge-into", "interleave",
     "interpose", "partition-slice", "partition", "flatten-into", "flatten", "complement",
-    "keep", "mapcat", "group-by",
+    "keep", "mapcat", "group-by", "some", "all",
 ]
 
 
